@@ -53,6 +53,10 @@ pub enum RD {
     C(usize),
     S(u32),
     T(u32),
+    /// SRV with this target
+    V(usize),
+    /// RRSIG covering this type (dummy signature)
+    R(u16),
 }
 
 #[derive(Clone, Debug, PartialEq, Eq, Hash, PartialOrd, Ord)]
@@ -66,6 +70,8 @@ pub struct Rec {
 pub struct Resp {
     pub rcode: u16,
     pub aa: bool,
+    /// TC bit: 0 never, 1 over UDP only (`t`), 2 over TCP as well (`T`)
+    pub tc: u8,
     pub ans: Vec<Rec>,
     pub auth: Vec<Rec>,
     pub add: Vec<Rec>,
@@ -99,6 +105,9 @@ pub struct Case {
     pub queries: Vec<(usize, u16)>,
     /// `conc` lines: (number of warm-up queries, size of the concurrent batch)
     pub conc: Option<(usize, usize)>,
+    /// `val` lines: the recursor runs in DNSSEC-validating mode (built-in trust anchor; the simulated internets
+    /// are unsigned, so nothing validates) — implementation-vs-oracle only
+    pub validating: bool,
 }
 
 pub fn ip_tok(ip: &IpAddr) -> String {
@@ -146,6 +155,8 @@ fn parse_rec(t: &str) -> Option<Rec> {
         "C" => RD::C(v.parse().ok()?),
         "S" => RD::S(v.parse().ok()?),
         "T" => RD::T(v.parse().ok()?),
+        "V" => RD::V(v.parse().ok()?),
+        "R" => RD::R(v.parse().ok()?),
         _ => return None,
     };
     Some(Rec { name, ttl, data })
@@ -159,6 +170,8 @@ fn rec_tok(r: &Rec) -> String {
         RD::C(x) => format!("C{x}"),
         RD::S(x) => format!("S{x}"),
         RD::T(x) => format!("T{x}"),
+        RD::V(x) => format!("V{x}"),
+        RD::R(x) => format!("R{x}"),
     };
     format!("{}:{}:{}", r.name, r.ttl, d)
 }
@@ -174,7 +187,8 @@ fn parse_resp(t: &str) -> Option<Resp> {
     }
     Some(Resp {
         rcode: p[0].parse().ok()?,
-        aa: p[1] == "1",
+        aa: p[1].starts_with('1'),
+        tc: if p[1].ends_with('t') { 1 } else if p[1].ends_with('T') { 2 } else { 0 },
         ans: parse_list(p[2], '+', parse_rec)?,
         auth: parse_list(p[3], '+', parse_rec)?,
         add: parse_list(p[4], '+', parse_rec)?,
@@ -182,7 +196,7 @@ fn parse_resp(t: &str) -> Option<Resp> {
 }
 
 fn resp_tok(r: &Resp) -> String {
-    format!("{}/{}/{}/{}/{}", r.rcode, b(r.aa), recs_tok(&r.ans), recs_tok(&r.auth), recs_tok(&r.add))
+    format!("{}/{}{}/{}/{}/{}", r.rcode, b(r.aa), ["", "t", "T"][r.tc as usize], recs_tok(&r.ans), recs_tok(&r.auth), recs_tok(&r.add))
 }
 
 fn list_tok<T>(xs: &[T], sep: &str, f: impl Fn(&T) -> String) -> String {
@@ -191,7 +205,7 @@ fn list_tok<T>(xs: &[T], sep: &str, f: impl Fn(&T) -> String) -> String {
 
 impl Case {
     pub fn parse(t: &[&str]) -> Option<Case> {
-        if t.len() != 12 || (t[0] != "res" && t[0] != "conc") {
+        if t.len() != 12 || (t[0] != "res" && t[0] != "conc" && t[0] != "val") {
             return None;
         }
         let names = parse_list(t[8], ',', parse_name)?;
@@ -243,13 +257,14 @@ impl Case {
             table,
             queries,
             conc,
+            validating: t[0] == "val",
         };
         // indices in range
         let nn = c.names.len();
         let ok_rec = |r: &Rec| {
             r.name < nn
                 && match r.data {
-                    RD::N(x) | RD::C(x) => x < nn,
+                    RD::N(x) | RD::C(x) | RD::V(x) => x < nn,
                     _ => true,
                 }
         };
@@ -274,7 +289,7 @@ impl Case {
         };
         format!(
             "{} {} {} {} {} {} {} {} {} {} {} {}",
-            if self.conc.is_some() { "conc" } else { "res" },
+            if self.validating { "val" } else if self.conc.is_some() { "conc" } else { "res" },
             self.rl,
             self.nl,
             list_tok(&self.roots, ",", ip_tok),
@@ -287,6 +302,16 @@ impl Case {
             list_tok(&self.table.iter().collect::<Vec<_>>(), ";", |((g, n, t), r)| format!("{g},{n},{t}={}", resp_tok(r))),
             queries,
         )
+    }
+
+    /// deterministic choice of the DNSSEC policy variant from the case itself
+    pub fn security_aware(&self) -> bool {
+        (self.names.len() + self.table.len() + self.queries.len()) % 4 == 0
+    }
+
+    /// some server sets the TC bit over stream transports as well
+    pub fn truncates_always(&self) -> bool {
+        self.groups.iter().any(|g| g.default.tc == 2) || self.table.values().any(|r| r.tc == 2)
     }
 
     fn group_of(&self, ip: &IpAddr) -> Option<usize> {
@@ -315,12 +340,28 @@ impl Case {
             RD::C(x) => RData::CNAME(CNAME(self.names[*x].clone())),
             RD::S(m) => RData::SOA(SOA::new(name.clone(), name.clone(), 1, 1, 1, 1, *m)),
             RD::T(t) => RData::TXT(TXT::new(vec![t.to_string()])),
+            RD::V(x) => RData::SRV(hickory_proto::rr::rdata::SRV::new(1, 1, 53, self.names[*x].clone())),
+            RD::R(covered) => {
+                use hickory_proto::dnssec::rdata::{sig::SigInput, DNSSECRData, RRSIG};
+                let input = SigInput {
+                    type_covered: RecordType::from(*covered),
+                    algorithm: hickory_proto::dnssec::Algorithm::ED25519,
+                    num_labels: name.num_labels(),
+                    original_ttl: r.ttl,
+                    sig_expiration: hickory_proto::rr::SerialNumber::from(2_000_000_000u32),
+                    sig_inception: hickory_proto::rr::SerialNumber::from(1_000_000_000u32),
+                    key_tag: 7,
+                    signer_name: name.clone(),
+                };
+                RData::DNSSEC(DNSSECRData::RRSIG(RRSIG::from_sig(input, vec![1, 2, 3, 4])))
+            }
         };
         Record::from_rdata(name, r.ttl, data)
     }
 
-    fn message(&self, r: &Resp, id: u16, q: &Query) -> Message {
+    fn message(&self, r: &Resp, id: u16, q: &Query, tcp: bool) -> Message {
         let mut m = Message::response(id, OpCode::Query);
+        m.metadata.truncation = r.tc == 2 || (r.tc == 1 && !tcp);
         m.add_query(q.clone());
         m.metadata.response_code = ResponseCode::from(0, r.rcode as u8);
         m.metadata.authoritative = r.aa;
@@ -345,6 +386,8 @@ fn canon_record(r: &Record) -> String {
         RData::NS(n) => format!("N{}", name_tok(&n.0)),
         RData::CNAME(n) => format!("C{}", name_tok(&n.0)),
         RData::SOA(s) => format!("S{}", s.minimum),
+        RData::SRV(v) => format!("V{}", name_tok(&v.target)),
+        RData::DNSSEC(hickory_proto::dnssec::rdata::DNSSECRData::RRSIG(sig)) => format!("R{}", u16::from(sig.input().type_covered)),
         RData::TXT(t) => format!(
             "T{}",
             t.txt_data.first().map(|s| String::from_utf8_lossy(s).to_string()).unwrap_or_default()
@@ -362,6 +405,8 @@ fn canon_rec(c: &Case, r: &Rec) -> String {
         RD::C(x) => format!("C{}", name_tok(&c.names[*x])),
         RD::S(x) => format!("S{x}"),
         RD::T(x) => format!("T{x}"),
+        RD::V(x) => format!("V{}", name_tok(&c.names[*x])),
+        RD::R(x) => format!("R{x}"),
     };
     format!("{}/{}", name_tok(&c.names[r.name]), d)
 }
@@ -388,6 +433,8 @@ struct MockNet {
 #[derive(Clone)]
 struct MockConn {
     ip: IpAddr,
+    /// the connection the pool asked for is a stream transport (after a truncated UDP answer)
+    tcp: bool,
     group: usize,
     net: MockNet,
 }
@@ -404,7 +451,7 @@ impl DnsHandle for MockConn {
             };
             this.net.log.lock().unwrap().push(Event::Send(this.ip, q.name.clone(), u16::from(q.query_type)));
             let resp = this.net.case.respond(this.group, &q);
-            let msg = this.net.case.message(resp, request.metadata.id, &q);
+            let msg = this.net.case.message(resp, request.metadata.id, &q, this.tcp);
             // through the wire format once, as a real transport would
             let bytes = msg.to_vec().map_err(NetError::from)?;
             // let other tasks interleave, as a real socket would
@@ -423,11 +470,12 @@ impl ConnectionProvider for MockNet {
     type FutureConn = Pin<Box<dyn std::future::Future<Output = Result<MockConn, NetError>> + Send>>;
     type RuntimeProvider = TokioRuntimeProvider;
 
-    fn new_connection(&self, ip: IpAddr, _config: &ConnectionConfig, _cx: &PoolContext) -> Result<Self::FutureConn, NetError> {
+    fn new_connection(&self, ip: IpAddr, config: &ConnectionConfig, _cx: &PoolContext) -> Result<Self::FutureConn, NetError> {
         let this = self.clone();
+        let tcp = !matches!(config.protocol, hickory_resolver::config::ProtocolConfig::Udp);
         Ok(Box::pin(async move {
             match this.case.group_of(&ip) {
-                Some(group) => Ok(MockConn { ip, group, net: this }),
+                Some(group) => Ok(MockConn { ip, tcp, group, net: this }),
                 None => {
                     this.log.lock().unwrap().push(Event::Dead(ip));
                     Err(NetError::from(std::io::Error::new(std::io::ErrorKind::ConnectionRefused, "nothing listens here")))
@@ -456,7 +504,61 @@ struct QueryOutcome {
     weight: u128,
 }
 
+/// The other ways a caller can look at a returned error (`Clone`, `is_nx_domain`, `is_no_records_found`,
+/// `into_soa`, `From<RecursorError> for NetError` — what the server and the validating recursor use) must expose
+/// exactly the records of the variant itself; returns a description of the first inconsistency.
+fn error_views_consistent(e: &RecursorError) -> Option<String> {
+    let c = e.clone();
+    if c.is_nx_domain() != e.is_nx_domain() || c.is_no_records_found() != e.is_no_records_found() || c.is_timeout() != e.is_timeout() {
+        return Some("a clone of the error answers is_nx_domain / is_no_records_found / is_timeout differently".into());
+    }
+    match e {
+        RecursorError::Negative(a) => {
+            let soa = c.into_soa();
+            let same_soa = match (&soa, &a.soa) {
+                (Some(x), Some(y)) => x.name == y.name && x.data == y.data,
+                (None, None) => true,
+                _ => false,
+            };
+            if !same_soa {
+                return Some("into_soa() differs from the SOA of the Negative variant".into());
+            }
+            if e.is_nx_domain() != a.nx_domain {
+                return Some("is_nx_domain() differs from the nx_domain flag".into());
+            }
+            match NetError::from(e.clone()) {
+                NetError::Dns(DnsError::NoRecordsFound(nr)) => {
+                    let au = |x: &Option<Arc<[Record]>>| x.as_ref().map(|v| v.iter().map(canon_record).collect::<Vec<_>>()).unwrap_or_default();
+                    if au(&nr.authorities) != au(&a.authorities) {
+                        return Some("NetError::from(error) carries other authority records than the Negative variant".into());
+                    }
+                    let s = |x: &Option<Box<Record<SOA>>>| x.as_ref().map(|r| format!("{}/{}", name_tok(&r.name), r.data.minimum));
+                    if s(&nr.soa) != s(&a.soa) {
+                        return Some("NetError::from(error) carries another SOA than the Negative variant".into());
+                    }
+                    if (nr.response_code == ResponseCode::NXDomain) != a.nx_domain {
+                        return Some("NetError::from(error) has another response code than the Negative variant".into());
+                    }
+                    None
+                }
+                _ => Some("NetError::from(Negative) is not NoRecordsFound".into()),
+            }
+        }
+        _ => {
+            if c.into_soa().is_some() && !matches!(e, RecursorError::Net(_)) {
+                return Some("into_soa() of an error without records".into());
+            }
+            None
+        }
+    }
+}
+
 fn classify(res: Result<Message, RecursorError>) -> (String, u16, bool, Vec<(String, Record)>) {
+    if let Err(e) = &res {
+        if let Some(what) = error_views_consistent(e) {
+            return (format!("inconsistent-error({what})"), 0, false, vec![]);
+        }
+    }
     match res {
         Ok(m) => {
             let mut v = vec![];
@@ -516,7 +618,22 @@ fn run_case(case: Arc<Case>) -> Result<Vec<QueryOutcome>, String> {
             allow_answers: case.allow_ans.clone(),
             ..RecursorOptions::default()
         };
-        let recursor = Recursor::with_options(&case.roots, options, net).map_err(|e| format!("build: {e}"))?;
+        // every fourth internet runs with DnssecPolicy::ValidationDisabled (security aware, not validating:
+        // DO bit in the upstream queries, same resolution logic) instead of SecurityUnaware
+        let recursor = if case.validating {
+            Recursor::new(
+                &case.roots,
+                hickory_resolver::recursor::DnssecPolicy::ValidateWithStaticKey(hickory_resolver::recursor::DnssecConfig::default()),
+                None,
+                options,
+                net,
+            )
+        } else if case.security_aware() {
+            Recursor::new(&case.roots, hickory_resolver::recursor::DnssecPolicy::ValidationDisabled, None, options, net)
+        } else {
+            Recursor::with_options(&case.roots, options, net)
+        }
+        .map_err(|e| format!("build: {e}"))?;
         let mut out = vec![];
         let (warm, batch) = case.conc.unwrap_or((case.queries.len(), 0));
         let mut k = 0;
@@ -526,7 +643,7 @@ fn run_case(case: Arc<Case>) -> Result<Vec<QueryOutcome>, String> {
                 log.lock().unwrap().clear();
                 let futs = case.queries[k..k + batch].iter().map(|(n, t)| {
                     let q = Query::new(case.names[*n].clone(), RecordType::from(*t));
-                    recursor.resolve(q, Instant::now(), false)
+                    recursor.resolve(q, Instant::now(), case.security_aware())
                 });
                 let res = tokio::time::timeout(Duration::from_secs(60), futures_util::future::join_all(futs)).await;
                 let events = log.lock().unwrap().clone();
@@ -544,7 +661,7 @@ fn run_case(case: Arc<Case>) -> Result<Vec<QueryOutcome>, String> {
             let (n, t) = &case.queries[k];
             let q = Query::new(case.names[*n].clone(), RecordType::from(*t));
             log.lock().unwrap().clear();
-            let res = tokio::time::timeout(Duration::from_secs(60), recursor.resolve(q, Instant::now(), false)).await;
+            let res = tokio::time::timeout(Duration::from_secs(60), recursor.resolve(q, Instant::now(), case.security_aware())).await;
             let events = log.lock().unwrap().clone();
             let Ok(res) = res else {
                 return Err("hang".to_string());
@@ -856,7 +973,7 @@ pub fn exec(line: &str, rec: &mut Recorder) {
     // if the code under test kills the process (stack overflow, abort) bin/check reports this case
     rec.announce(line);
     match t.first() {
-        Some(&"res") | Some(&"conc") => exec_res(line, &t, rec),
+        Some(&"res") | Some(&"conc") | Some(&"val") => exec_res(line, &t, rec),
         Some(&"stub") => stub::exec(line, &t, rec),
         Some(&"acl") => acl::exec(line, &t, rec),
         _ => rec.stat("skipped.unparsable-case"),
@@ -872,7 +989,8 @@ fn exec_res(line: &str, t: &[&str], rec: &mut Recorder) {
     // records with TTL 0 make name-server pools expire at once (NameServerPool::ttl_expired); the model has no
     // pool expiry (checks/C19.json), so such internets are implementation-vs-oracle only
     let ttl0 = Truth::responses(&case).iter().any(|(_, _, r)| r.all().any(|x| x.ttl == 0 || matches!(x.data, RD::S(0))));
-    let homog = homogeneous(&case) && !ttl0;
+    // a server truncating over TCP too keeps the pool busy until its wall-clock deadline: no model side
+    let homog = homogeneous(&case) && !ttl0 && !case.truncates_always() && !case.validating;
     if ttl0 {
         rec.stat("ttl-zero-records(impl-vs-oracle only)");
     }
@@ -912,19 +1030,27 @@ fn exec_res(line: &str, t: &[&str], rec: &mut Recorder) {
             .join(" | "),
     };
     if std::env::var_os("C19_DEBUG").is_some() {
+        eprintln!("sends per query: {:?}", outs.iter().map(|o| o.events.len()).collect::<Vec<_>>());
         eprintln!("homog={homog} {out_line}");
     }
     let idx = if homog {
         rec.case(line.to_string(), out_line)
     } else {
         rec.impl_only += 1;
-        if !ttl0 {
+        if !ttl0 && !case.validating {
             rec.stat("pools.heterogeneous(impl-vs-oracle only)");
         }
         // keep the observed summary in the stats sample but give the model no side to compare
         rec.case(line.to_string(), "~".to_string())
     };
-    rec.stat(if case.conc.is_some() { "op.conc" } else { "op.res" });
+    rec.stat(if case.validating { "op.val" } else if case.conc.is_some() { "op.conc" } else { "op.res" });
+    rec.stat(if case.validating { "policy.ValidateWithStaticKey" } else if case.security_aware() { "policy.ValidationDisabled" } else { "policy.SecurityUnaware" });
+    if Truth::responses(&case).iter().any(|(_, _, r)| r.tc > 0) {
+        rec.stat("internet.truncating-servers");
+    }
+    if case.queries.iter().any(|(n, _)| !case.names[*n].is_fqdn()) {
+        rec.stat("query.not-fully-qualified");
+    }
     if let Some((_, b_)) = case.conc {
         rec.stat(&format!("conc.clients.{b_}"));
         let (lo, hi) = (case.conc.unwrap().0, case.conc.unwrap().0 + b_);
@@ -955,7 +1081,12 @@ fn exec_res(line: &str, t: &[&str], rec: &mut Recorder) {
     // foreign-owner shape of the known finding (consequences of the same root cause get the same class)
     let mut flagged: BTreeSet<IpAddr> = BTreeSet::new();
     for (k, o) in outs.iter().enumerate() {
-        rec.stat(&format!("answer.{}", o.class));
+        if o.class.starts_with("inconsistent-error") {
+            rec.fail(idx, format!("query {k}: {}", o.class), "");
+            rec.stat("answer.inconsistent-error");
+        } else {
+            rec.stat(&format!("answer.{}", o.class));
+        }
         // (1) contacted addresses
         let mut n_sends: u128 = 0;
         for e in &o.events {
@@ -1023,7 +1154,25 @@ fn exec_res(line: &str, t: &[&str], rec: &mut Recorder) {
                 }
             }
         }
-        // (3) bounded work
+        // (3) bounded work.  Besides the proved (astronomic) bound: one (server, query) pair is asked again only
+        // when another lookup needs it — an envelope linear in the configured limits (validated, not proved)
+        let mut per_pair: HashMap<(IpAddr, String, u16), u128> = HashMap::new();
+        for e in &o.events {
+            if let Event::Send(ip, n, t) = e {
+                *per_pair.entry((*ip, name_tok(n), *t)).or_default() += 1;
+            }
+        }
+        let envelope = 4 * (case.nl as u128 + case.rl as u128 + 64 + 8) * o.weight.max(1);
+        if let Some(((ip, n, t), cnt)) = per_pair.iter().max_by_key(|(_, c)| **c) {
+            if *cnt > envelope {
+                let class = if case.truncates_always() { CLASS_TRUNC } else { "" };
+                rec.fail(
+                    idx,
+                    format!("query {k}: {} was sent the query {n} type {t} {cnt} times in one resolution (> {envelope} = 4 x (ns_recursion_limit + recursion_limit + MAX_CNAME_LOOKUPS + 8)): the number of upstream queries is bounded by wall-clock time only", ip_tok(ip)),
+                    class,
+                );
+            }
+        }
         if n_sends > bound.saturating_mul(o.weight.max(1)) {
             rec.fail(idx, format!("query {k}: {n_sends} upstream queries > proved bound {bound}"), "");
         }
@@ -1081,6 +1230,7 @@ fn exec_res(line: &str, t: &[&str], rec: &mut Recorder) {
 }
 
 const CLASS_NSADDR: &str = "C19.GluelessNsAddressOwnerUnchecked";
+const CLASS_TRUNC: &str = "C19.TruncatedStreamAnswerRetriedUnbounded";
 
 /// Narrow class of the "contacted an address nobody legitimately made a name server" failure: the internet
 /// contains a response to an address query `(T, A|AAAA)` whose *answer section* carries this address under an
@@ -1131,6 +1281,14 @@ pub fn run(o: &Opts, rec: &mut Recorder) {
         let line = gen::acl_world(&mut r).line();
         exec(&line, rec);
     }
+    // the DNSSEC-validating mode over the same (unsigned) internets: implementation-vs-oracle only — which servers
+    // it talks to and what it returns is still subject to the filters and the bailiwick rule
+    let n = o.n(60, 1500);
+    for i in 0..n {
+        let mut c = if i % 3 == 0 { gen::acl_world(&mut r) } else { gen::random_world(&mut r) };
+        c.validating = true;
+        exec(&c.line(), rec);
+    }
     // concurrent clients (servers answer after 2 ms of real time, so these are the slow cases)
     let n = o.n(120, 2500);
     for _ in 0..n {
@@ -1176,6 +1334,8 @@ pub mod gen {
         pub lame: BTreeMap<usize, u8>,
         pub extras: Vec<Extra>,
         pub ttl: u32,
+        /// TTL of the address records `finish` creates for NS hosts (glue); 0 = same as `ttl`
+        pub glue_ttl: u32,
     }
 
     pub fn v4(a: u8, b_: u8, c: u8, d: u8) -> IpAddr {
@@ -1278,7 +1438,7 @@ pub mod gen {
                             IpAddr::V4(x) => RD::A(u32::from(x)),
                             IpAddr::V6(x) => RD::Q(u128::from(x)),
                         };
-                        let r = Rec { name: *h, ttl, data: d };
+                        let r = Rec { name: *h, ttl: if self.glue_ttl > 0 { self.glue_ttl } else { ttl }, data: d };
                         if let Some(hz) = self.zone_of(*h) {
                             if !self.zones[hz].records.contains(&r) {
                                 self.zones[hz].records.push(r);
@@ -1297,6 +1457,8 @@ pub mod gen {
                 RD::C(_) => 5,
                 RD::S(_) => 6,
                 RD::T(_) => 16,
+                RD::V(_) => 33,
+                RD::R(_) => 46,
             }
         }
 
@@ -1326,6 +1488,7 @@ pub mod gen {
                         Resp {
                             rcode: 0,
                             aa: false,
+                            tc: 0,
                             ans: vec![],
                             auth: root.ns.iter().map(|h| Rec { name: root.name, ttl: self.ttl, data: RD::N(*h) }).collect(),
                             add: vec![],
@@ -1358,7 +1521,7 @@ pub mod gen {
             let soa = Rec { name: z.name, ttl: self.ttl, data: RD::S(self.ttl) };
             if let Some(c) = cut {
                 if t == 43 && self.names[c.name] == *qn {
-                    return Resp { rcode: 0, aa: true, ans: vec![], auth: vec![soa], add: vec![] };
+                    return Resp { rcode: 0, aa: true, tc: 0, ans: vec![], auth: vec![soa], add: vec![] };
                 }
                 let auth: Vec<Rec> = c.ns.iter().map(|h| Rec { name: c.name, ttl: self.ttl, data: RD::N(*h) }).collect();
                 let mut add = vec![];
@@ -1367,7 +1530,7 @@ pub mod gen {
                         add.extend(self.host_addrs(*h));
                     }
                 }
-                return Resp { rcode: 0, aa: false, ans: vec![], auth, add };
+                return Resp { rcode: 0, aa: false, tc: 0, ans: vec![], auth, add };
             }
             let at = |name: &Name| -> Vec<&Rec> { z.records.iter().filter(|r| self.names[r.name] == *name).collect() };
             let here = at(qn);
@@ -1395,7 +1558,7 @@ pub mod gen {
                         _ => break,
                     }
                 }
-                return Resp { rcode: 0, aa: true, ans, auth: vec![], add: vec![] };
+                return Resp { rcode: 0, aa: true, tc: 0, ans, auth: vec![], add: vec![] };
             }
             let ty: Vec<Rec> = here.iter().copied().filter(|r| t == 255 || Self::rtype(&r.data) == t).cloned().collect();
             if !ty.is_empty() {
@@ -1409,13 +1572,13 @@ pub mod gen {
                         }
                     }
                 }
-                return Resp { rcode: 0, aa: true, ans: ty, auth: vec![], add };
+                return Resp { rcode: 0, aa: true, tc: 0, ans: ty, auth: vec![], add };
             }
             let exists = z.records.iter().any(|r| is_subzone(qn, &self.names[r.name]));
             if exists {
-                Resp { rcode: 0, aa: true, ans: vec![], auth: vec![soa], add: vec![] }
+                Resp { rcode: 0, aa: true, tc: 0, ans: vec![], auth: vec![soa], add: vec![] }
             } else {
-                Resp { rcode: 3, aa: true, ans: vec![], auth: vec![soa], add: vec![] }
+                Resp { rcode: 3, aa: true, tc: 0, ans: vec![], auth: vec![soa], add: vec![] }
             }
         }
 
@@ -1470,6 +1633,7 @@ pub mod gen {
                 table,
                 queries,
                 conc: None,
+                validating: false,
             }
         }
     }
@@ -1719,7 +1883,7 @@ pub mod gen {
             // the attacker's server answers for www.example.com
             let evil_rec = Rec { name: q1, ttl: 3600, data: RD::A(u32::from(Ipv4Addr::new(66, 6, 6, 6))) };
             for t in [1u16, 2] {
-                c.table.insert((gx, q1, t), Resp { rcode: 0, aa: true, ans: if t == 1 { vec![evil_rec.clone()] } else { vec![] }, auth: vec![], add: vec![] });
+                c.table.insert((gx, q1, t), Resp { rcode: 0, aa: true, tc: 0, ans: if t == 1 { vec![evil_rec.clone()] } else { vec![] }, auth: vec![], add: vec![] });
             }
             out.push(("glueless-ns-address-with-foreign-owner", c));
         }
@@ -1737,6 +1901,20 @@ pub mod gen {
             let q1 = w.intern("www.example.com.");
             let roots = w.group_ips[0].clone();
             out.push(("cached-address-used-as-glue", w.case(roots, vec![(q0, 1), (q1, 1)], 24, 24)));
+            // the same with address records that live shorter than the NS records (pool TTL = the smaller one)
+            let mut w = base(false);
+            w.glue_ttl = 300;
+            let gh = w.std_group(1);
+            w.zone("hoster.net.", gh, &["ns.hoster.net."], true);
+            let ge = w.std_group(1);
+            w.zone("example.com.", ge, &["dns.hoster.net."], false);
+            let r = w.a("www.example.com.", v4(44, 1, 1, 1));
+            w.add_auto(r);
+            w.finish();
+            let q0 = w.intern("dns.hoster.net.");
+            let q1 = w.intern("www.example.com.");
+            let roots = w.group_ips[0].clone();
+            out.push(("cached-address-shorter-ttl-used-as-glue", w.case(roots, vec![(q0, 1), (q1, 1), (q1, 1)], 24, 24)));
         }
         // 12d. wildcard owner name, mixed-case query, DS query (parent side), ANY and CNAME queries
         {
@@ -1895,6 +2073,101 @@ pub mod gen {
             let mut c = w.case(roots, vec![(q1, 28), (q1, 1)], 24, 24);
             c.deny_ans = vec![IpNet::new(v4(0, 0, 0, 0), 8).unwrap(), IpNet::new(v6(m), 96).unwrap()];
             out.push(("acl-v4-zero-net-does-not-cover-v6-loopback", c));
+        }
+        // 16. coverage-driven additions: truncated answers (UDP only / over TCP as well), a query name that is not
+        //     fully qualified, an answer that sits in the additional section only next to a foreign authority record
+        {
+            let mut w = base(false);
+            let ge = w.std_group(2);
+            w.zone("example.com.", ge, &["ns1.example.com.", "ns2.example.com."], true);
+            let r = w.a("www.example.com.", v4(44, 1, 1, 1));
+            w.add_auto(r);
+            w.finish();
+            let q1 = w.intern("www.example.com.");
+            let roots = w.group_ips[0].clone();
+            let mut c = w.clone().case(roots.clone(), vec![(q1, 1), (q1, 1)], 24, 24);
+            for r in c.table.values_mut() {
+                r.tc = 1;
+            }
+            out.push(("truncated-over-udp-everywhere", c));
+            let mut c = w.clone().case(roots.clone(), vec![(q1, 1)], 24, 24);
+            for ((g, n, t), r) in c.table.iter_mut() {
+                if *g == ge && c.names[*n] == c.names[q1] && *t == 1 {
+                    r.tc = 2;
+                }
+            }
+            out.push(("truncated-over-tcp-as-well", c));
+            // relative query name
+            let mut c = w.clone().case(roots.clone(), vec![(q1, 1)], 24, 24);
+            let mut rel = c.names[q1].clone();
+            rel.set_fqdn(false);
+            c.names.push(rel);
+            c.queries = vec![(c.names.len() - 1, 1), (q1, 1)];
+            out.push(("query-name-not-fully-qualified", c));
+            // answer only in the additional section + an authority record of another zone: the filter strips the
+            // authority section to nothing while the answer section was empty from the start
+            let mut c = w.case(roots, vec![(q1, 1), (q1, 1)], 24, 24);
+            let com = c.names.iter().position(|n| *n == Name::from_ascii("com.").unwrap()).unwrap();
+            let nsx = c.names.iter().position(|n| *n == Name::from_ascii("ns1.example.com.").unwrap()).unwrap();
+            for ((g, n, t), r) in c.table.iter_mut() {
+                if *g == ge && c.names[*n] == c.names[q1] && *t == 1 {
+                    r.add = std::mem::take(&mut r.ans);
+                    r.auth = vec![Rec { name: com, ttl: 3600, data: RD::N(nsx) }];
+                }
+            }
+            out.push(("answer-in-additional-only-foreign-authority", c.clone()));
+            // the same shape for the answer filter of the pool: the authority section holds only an address the filter
+            // denies (stripped to nothing while the answer section was empty from the start)
+            for ((g, n, t), r) in c.table.iter_mut() {
+                if *g == ge && c.names[*n] == c.names[q1] && *t == 1 {
+                    r.auth = vec![Rec { name: q1, ttl: 3600, data: RD::A(u32::from(Ipv4Addr::new(66, 6, 6, 6))) }];
+                }
+            }
+            c.deny_ans = vec![net32(evil)];
+            out.push(("answer-in-additional-only-denied-authority-address", c));
+        }
+        // 17. RRSIGs along a CNAME chain across two zones: carried along for a client with the DO bit (every fourth
+        //     internet, see Case::security_aware — the name table is padded to get there), stripped without it
+        {
+            let mut w = base(false);
+            let g1 = w.std_group(1);
+            w.zone("one.com.", g1, &["ns.one.com."], true);
+            let g2 = w.std_group(1);
+            w.zone("two.com.", g2, &["ns.two.com."], true);
+            let r = w.cname("a.one.com.", "b.two.com.");
+            w.add_auto(r);
+            let r = w.a("b.two.com.", v4(44, 1, 1, 1));
+            w.add_auto(r);
+            w.finish();
+            let q1 = w.intern("a.one.com.");
+            let roots = w.group_ips[0].clone();
+            let mut c = w.case(roots, vec![(q1, 1), (q1, 1), (q1, 46)], 24, 24);
+            for e in c.table.values_mut() {
+                if e.rcode == 0 && !e.ans.is_empty() {
+                    let first = e.ans[0].clone();
+                    let covered = match first.data {
+                        RD::C(_) => 5,
+                        RD::A(_) => 1,
+                        RD::N(_) => 2,
+                        _ => 6,
+                    };
+                    e.ans.push(Rec { name: first.name, ttl: 3600, data: RD::R(covered) });
+                    e.ans.push(Rec { name: first.name, ttl: 3600, data: RD::R(16) });
+                }
+            }
+            let mut with_do = c.clone();
+            let mut k = 0;
+            while !with_do.security_aware() {
+                with_do.names.push(Name::from_ascii(format!("pad{k}.invalid-pad.")).unwrap());
+                k += 1;
+            }
+            out.push(("rrsigs-along-cname-chain-do-bit", with_do));
+            let mut k = 0;
+            while c.security_aware() {
+                c.names.push(Name::from_ascii(format!("pad{k}.invalid-pad.")).unwrap());
+                k += 1;
+            }
+            out.push(("rrsigs-along-cname-chain-stripped", c));
         }
         // 13b. negative answer carrying an in-bailiwick address the answer filter denies
         {
@@ -2123,6 +2396,12 @@ pub mod gen {
                 }
             }
         }
+        // TTL variety: glue shorter or longer than the NS records, hosts different again (nothing expires within a
+        // case; this exercises the pool-TTL bookkeeping of ns_pool_for_name)
+        if r.chance(1, 2) {
+            w.glue_ttl = *r.pick(&[300u32, 600, 7200]);
+            w.ttl = *r.pick(&[900u32, 3600]);
+        }
         w.finish();
         // hostile additions: records with arbitrary owners in arbitrary sections
         let all_names: Vec<usize> = (0..w.names.len()).collect();
@@ -2190,6 +2469,40 @@ pub mod gen {
         }
         if r.chance(1, 8) {
             c.deny_ans.push(net32(evil_ips[0]));
+        }
+        // some answers are accompanied by RRSIGs covering their records (never validated here: what matters is which
+        // of them CNAME chasing carries along and whether they are stripped for a client without the DO bit)
+        if r.chance(1, 3) {
+            let keys: Vec<(usize, usize, u16)> = c.table.keys().cloned().collect();
+            for k in keys {
+                let e = c.table.get_mut(&k).unwrap();
+                if e.rcode == 0 && !e.ans.is_empty() && r.chance(1, 2) {
+                    let first = e.ans[0].clone();
+                    let covered = match first.data {
+                        RD::A(_) => 1,
+                        RD::Q(_) => 28,
+                        RD::N(_) => 2,
+                        RD::C(_) => 5,
+                        RD::S(_) => 6,
+                        RD::T(_) => 16,
+                        RD::V(_) => 33,
+                        RD::R(_) => 46,
+                    };
+                    e.ans.push(Rec { name: first.name, ttl: first.ttl, data: RD::R(covered) });
+                    if r.chance(1, 4) {
+                        e.ans.push(Rec { name: first.name, ttl: first.ttl, data: RD::R(*r.pick(&[1u16, 5, 16, 28])) });
+                    }
+                }
+            }
+        }
+        // some answers come truncated over UDP (the pool repeats the query over TCP and gets the full answer)
+        if r.chance(1, 4) {
+            let keys: Vec<(usize, usize, u16)> = c.table.keys().cloned().collect();
+            for k in keys {
+                if r.chance(1, 3) {
+                    c.table.get_mut(&k).unwrap().tc = 1;
+                }
+            }
         }
         // raw table mutations: a random record dropped into a random section of a random entry
         let keys: Vec<(usize, usize, u16)> = c.table.keys().cloned().collect();
@@ -2266,11 +2579,39 @@ pub mod acl {
             return;
         };
         let r = catch(|| AccessControlSetBuilder::new("verif").allow(allow.iter()).deny(deny.iter()).build().map(|acs| acs.denied(ip)));
+        // the other ways to arrive at the same set: entries added and cleared again first; the empty set
+        let junk = [IpNet::new(gen::v4(0, 0, 0, 0), 0).unwrap(), IpNet::new(v6(0), 0).unwrap()];
+        let r2 = catch(|| {
+            AccessControlSetBuilder::new("verif")
+                .allow(junk.iter())
+                .deny(junk.iter())
+                .clear_allow()
+                .clear_deny()
+                .allow(allow.iter())
+                .deny(deny.iter())
+                .build()
+                .map(|acs| acs.denied(ip))
+        });
+        let same = match (&r, &r2) {
+            (Ok(Ok(a)), Ok(Ok(b_))) => a == b_,
+            (Ok(Err(_)), Ok(Err(_))) => true,
+            _ => false,
+        };
+        let empty_ok = !(allow.is_empty() && deny.is_empty()) || {
+            let e = hickory_proto::access_control::AccessControlSet::empty("verif");
+            e.allows_all() && !e.denied(ip)
+        };
         rec.stat("op.acl");
         match r {
             Ok(Ok(d)) => {
                 let idx = rec.case(line.to_string(), b(d).to_string());
                 let want = ref_denied(&allow, &deny, &ip);
+                if !same {
+                    rec.fail(idx, "a set built after clear_allow()/clear_deny() of other entries gives another verdict", "");
+                }
+                if !empty_ok {
+                    rec.fail(idx, "AccessControlSet::empty() denies an address", "");
+                }
                 if d != want {
                     rec.fail(idx, format!("AccessControlSet::denied({}) = {d} but the lists say {want} (allow {}, deny {})", ip_tok(&ip), t[1], t[2]), "");
                 }
@@ -2450,7 +2791,7 @@ mod stub {
     const UPSTREAM: IpAddr = IpAddr::V4(Ipv4Addr::new(44, 9, 9, 9));
 
     fn parse(t: &[&str]) -> Option<Case> {
-        if t.len() != 4 {
+        if t.len() != 4 && t.len() != 5 {
             return None;
         }
         let names = parse_list(t[1], ',', parse_name)?;
@@ -2476,6 +2817,7 @@ mod stub {
             table,
             queries: vec![(n.parse().ok()?, ty.parse().ok()?)],
             conc: None,
+            validating: false,
         };
         let nn = c.names.len();
         let ok = c.table.iter().all(|((_, n, _), r)| {
@@ -2483,7 +2825,7 @@ mod stub {
                 && r.all().all(|x| {
                     x.name < nn
                         && match x.data {
-                            RD::N(y) | RD::C(y) => y < nn,
+                            RD::N(y) | RD::C(y) | RD::V(y) => y < nn,
                             _ => true,
                         }
                 })
@@ -2494,7 +2836,8 @@ mod stub {
         Some(c)
     }
 
-    fn run_stub(case: Arc<Case>) -> Result<(bool, usize), String> {
+    /// returns (answered, upstream queries) of the first lookup and, with `twice`, of a second identical lookup
+    fn run_stub(case: Arc<Case>, pi: bool, twice: bool) -> Result<((bool, usize), Option<(bool, usize)>), String> {
         let rt = tokio::runtime::Builder::new_current_thread().enable_all().build().map_err(|e| e.to_string())?;
         rt.block_on(async move {
             let log = Arc::new(Mutex::new(vec![]));
@@ -2503,12 +2846,23 @@ mod stub {
             let mut opts = ResolverOpts::default();
             opts.attempts = 0;
             opts.ndots = 0;
+            opts.preserve_intermediates = pi;
             let resolver = Resolver::builder_with_config(config, net).with_options(opts).build().map_err(|e| format!("build: {e}"))?;
             let (n, t) = case.queries[0];
             let fut = resolver.lookup(case.names[n].clone(), RecordType::from(t));
             let res = tokio::time::timeout(Duration::from_secs(60), fut).await.map_err(|_| "hang".to_string())?;
             let sends = log.lock().unwrap().iter().filter(|e| matches!(e, Event::Send(..))).count();
-            Ok((res.is_ok(), sends))
+            let first = (res.is_ok(), sends);
+            let second = if twice {
+                log.lock().unwrap().clear();
+                let fut = resolver.lookup(case.names[n].clone(), RecordType::from(t));
+                let res = tokio::time::timeout(Duration::from_secs(60), fut).await.map_err(|_| "hang".to_string())?;
+                let sends = log.lock().unwrap().iter().filter(|e| matches!(e, Event::Send(..))).count();
+                Some((res.is_ok(), sends))
+            } else {
+                None
+            };
+            Ok((first, second))
         })
     }
 
@@ -2520,8 +2874,10 @@ mod stub {
         let case = Arc::new(case);
         let (tx, rx) = std::sync::mpsc::channel();
         let c2 = case.clone();
+        let flags = t.get(4).copied().unwrap_or("");
+        let (pi, twice) = (!flags.starts_with("p0"), flags.ends_with('x'));
         std::thread::spawn(move || {
-            let r = catch(|| run_stub(c2));
+            let r = catch(|| run_stub(c2, pi, twice));
             let _ = tx.send(match r {
                 Ok(r) => r,
                 Err(p) => Err(format!("panic {p}")),
@@ -2530,8 +2886,22 @@ mod stub {
         let res = rx.recv_timeout(Duration::from_secs(120)).unwrap_or(Err("hang".into()));
         rec.stat("op.stub");
         match res {
-            Ok((ok, n)) => {
+            Ok(((ok, n), second)) => {
                 let idx = rec.case(line.to_string(), format!("{} n={n}", b(ok)));
+                if !pi {
+                    rec.stat("stub.preserve_intermediates-off");
+                }
+                // the same lookup again (from the stub's cache where it keeps the outcome): same verdict, and again
+                // at most MAX_QUERY_DEPTH upstream queries
+                if let Some((ok2, n2)) = second {
+                    rec.stat(if n2 == 0 { "stub.second-lookup.from-cache" } else { "stub.second-lookup.upstream-again" });
+                    if ok2 != ok {
+                        rec.fail(idx, format!("the same stub lookup a second time ends differently ({ok} then {ok2})"), "");
+                    }
+                    if n2 > 8 {
+                        rec.fail(idx, format!("stub resolver sent {n2} upstream queries for the repeated lookup (> MAX_QUERY_DEPTH = 8)"), "");
+                    }
+                }
                 rec.stat(&format!("stub.upstream-queries.{n}"));
                 rec.stat(if ok { "stub.answered" } else { "stub.failed" });
                 if n > 8 {
@@ -2558,12 +2928,14 @@ mod stub {
         for i in 0..nn {
             names.push(Name::from_ascii(format!("h{i}.example{}.test-zone.", i % 3)).unwrap());
         }
-        let qt = *r.pick(&[1u16, 1, 1, 28, 16, 5, 255]);
+        let qt = *r.pick(&[1u16, 1, 1, 28, 16, 5, 255, 33]);
+        let srv_hops = qt != 33 && r.chance(1, 6);
         let mut table: Vec<String> = vec![];
         let data = |n: usize, qt: u16| -> String {
             match qt {
                 28 => format!("{n}:300:Q{}", 0x2a00u128 << 112 | 7),
                 16 => format!("{n}:300:T7"),
+                33 => format!("{n}:300:V{}", (n + 1) % nn),
                 _ => format!("{n}:300:A{}", u32::from(Ipv4Addr::new(44, 1, 1, 1))),
             }
         };
@@ -2581,7 +2953,8 @@ mod stub {
                     }
                 } else {
                     let target = if last { r.below(nn as u64) as usize } else { j + 1 };
-                    ans.push(format!("{j}:300:C{target}"));
+                    // an SRV record in the answer redirects the search like an alias (the `SRV` arm of handle_noerror)
+                    ans.push(if srv_hops && r.chance(1, 2) { format!("{j}:300:V{target}") } else { format!("{j}:300:C{target}") });
                     // sometimes the target's data rides along
                     if r.chance(1, 6) {
                         ans.push(data(target, qt));
@@ -2595,8 +2968,9 @@ mod stub {
             }
             i += 1;
         }
+        let flags = format!("{}{}", if r.chance(1, 3) { "p0" } else { "p1" }, if r.chance(1, 2) { "x" } else { "" });
         format!(
-            "stub {} {} 0,{qt}",
+            "stub {} {} 0,{qt} {flags}",
             list_tok(&names, ",", name_tok),
             if table.is_empty() { "-".to_string() } else { table.join(";") }
         )
